@@ -587,10 +587,11 @@ harnesses! {
     tryinsert_n3_k3 [5] => h_try_insert_k(3, tab_of(6), 40, 3); //@ q=C01,C04,C05,C06,C07,C10,C20 t=C02 to=900
     tryinsert_n3_k1 [5] => h_try_insert_k(3, tab_of(6), 40, 1); //@ t=C01,C02,C04,C05,C10 to=900
     tryinsert_n2_sym_full [4] => h_try_insert(2, tab_of(6), 64); //@ t=C01,C02,C04,C10 to=1200
+    tryinsert_n1_full [3] => h_try_insert(1, tab_of(6), 64); //@ q=C10 t=C01,C02 to=600 solver=cadical
     tryinsert_n2_collide [4] => h_try_insert(2, tab_of(0), 40); //@ q=C04,C10 to=900
     mutate_n3_k0 [5] => h_mutate_k(3, tab_of(6), 40, 0); //@ q=C01,C03,C05,C06,C07,C11,C20 t=C02 to=1200 solver=cadical
-    mutate_n3_k1 [5] => h_mutate_k(3, tab_of(6), 40, 1); //@ q=C01,C03,C05,C06,C07,C11,C20 t=C02 to=1200 solver=cadical
-    mutate_n3_k2 [5] => h_mutate_k(3, tab_of(6), 40, 2); //@ q=C01,C03,C05,C11 t=C06,C07,C20,C02 to=1200 solver=cadical
+    mutate_n3_k1 [5] => h_mutate_k(3, tab_of(6), 40, 1); //@ q=C01,C03,C05,C06,C07,C11,C20,C04 t=C02 to=1200 solver=cadical
+    mutate_n3_k2 [5] => h_mutate_k(3, tab_of(6), 40, 2); //@ q=C01,C03,C05,C11,C04 t=C06,C07,C20,C02 to=1200 solver=cadical
     mutate_n3_k3 [5] => h_mutate_k(3, tab_of(6), 40, 3); //@ q=C05,C11,C20 t=C01,C02 to=600 solver=cadical
     mutate_n2_sym [4] => h_mutate(2, tab_of(6), 40); //@ t=C01,C02,C03,C11 to=3000 solver=portfolio
     mutate_n3_collide_k0 [5] => h_mutate_k(3, tab_of(0), 40, 0); //@ t=C01,C03,C07,C11 to=1200 solver=cadical
